@@ -35,9 +35,19 @@ type LoopSpec struct {
 	Invariants []Clause
 	Modifies   []Clause
 	Decreases  []Clause
+	// `loop k reaches <callee|mapupdate> [when E]`: every iteration that completes (comes back to the
+	// head) has passed through such a site (when E holds at the back edge)
+	Reaches []LoopReach
 	// programmatic clauses supplied by a plug-in (same role as the textual ones)
 	InvFns []func(env *Env, phis []*ssa.Phi) string
 	ModFns []func(env *Env) string
+}
+
+type LoopReach struct {
+	What string
+	When *Clause
+	Line int
+	Tag  string
 }
 
 type Let struct {
@@ -227,6 +237,14 @@ func parseContracts(src, pkgName, file string) ([]*Contract, map[string]*define,
 			case "decreases":
 				ls.Decreases = append(ls.Decreases, Clause{Text: expr, Line: line, Tag: curTag})
 				lastAppend = nil
+			case "reaches":
+				lr := LoopReach{What: expr, Line: line, Tag: curTag}
+				if k := strings.Index(expr, " when "); k >= 0 {
+					lr.What = strings.TrimSpace(expr[:k])
+					lr.When = &Clause{Text: strings.TrimSpace(expr[k+6:]), Line: line, Tag: curTag}
+				}
+				ls.Reaches = append(ls.Reaches, lr)
+				lastAppend = nil
 			default:
 				return nil, nil, fmt.Errorf("%s:%d: unknown loop clause %q", file, line, f[1])
 			}
@@ -303,6 +321,11 @@ func parseContracts(src, pkgName, file string) ([]*Contract, map[string]*define,
 			}
 			for i := range l.Decreases {
 				fix(&l.Decreases[i])
+			}
+			for i := range l.Reaches {
+				if l.Reaches[i].When != nil {
+					fix(l.Reaches[i].When)
+				}
 			}
 		}
 		if err != nil {
@@ -526,6 +549,13 @@ func (c *Contract) filterProperty(prop string) {
 	c.Asserts = as
 	for _, l := range c.Loops {
 		l.Invariants = keep(l.Invariants)
+		var rs []LoopReach
+		for _, lr := range l.Reaches {
+			if tagHas(lr.Tag, prop) {
+				rs = append(rs, lr)
+			}
+		}
+		l.Reaches = rs
 		l.Modifies = keep(l.Modifies)
 	}
 }
